@@ -15,6 +15,9 @@ CLAIMED = {
     "C03": ("FindSubmatchIndex family vs stdlib capture positions on the capture corpus", "§5 C03"),
     "C04": ("FindAll family, Count, iterators, AppendAllIndex vs stdlib FindAll sequence; limit n symbolic in [-1,3]", "§5 C04"),
     "C05": ("exact worst-case work (executed basic blocks of library code, maximised by exhaustive symbolic exploration over ALL haystacks of length L over a 3-symbol class alphabet) at L, 2L; asserted: growth at most 2.5x plus a constant, and at most 32x the reference PikeVM per byte", "§5 C05"),
+    "C06": ("two concurrent calls (API pairs) on one shared Regex: every interleaving at synchronisation operations with a bounded number of preemptions is explored by the executor, with a vector-clock happens-before monitor on all plain memory accesses and per-call result equality with the sequential result; haystacks symbolic; races are confirmed under the native Go race detector before being reported", "§5 C06"),
+    "C07": ("every search API on every byte string within the bound: no panic, no exceeded step budget, result well-formedness predicates, haystack cells unchanged, Find aliases the input; Compile of patterns with a symbolic byte returns normally and later searches are well-formed", "§5 C07"),
+    "C09": ("QuoteMeta for every byte string of length <= 3/4; Compile(QuoteMeta(s)) matches exactly s; Compile/CompilePOSIX acceptance, error text and all metadata accessors vs regexp on the Hamming-1 neighbourhood (one symbolic byte per position over a metacharacter alphabet) of a pattern list", "§5 C09"),
     "C08": ("Expand/ExpandString with a symbolic template (<= 3/4 bytes over the template alphabet), ReplaceAll* with symbolic source text and partly symbolic template, Split with symbolic text and symbolic limit n, all vs stdlib", "§5 C08"),
     "C10": ("Longest()/CompilePOSIX results vs stdlib in the same mode; Copy isolation", "§5 C10"),
     "C11": ("internal consistency of all views of one Regex on every byte string within the bound (no oracle)", "§5 C11"),
